@@ -9,7 +9,7 @@
    every generated case by the executable checkers check_C07_*. *)
 From Coq Require Import List Bool ZArith Lia.
 Import ListNotations.
-From Rosed Require Import Base.Res Base.Str Gem.Segment Gem.GString Model.Manip Model.Table Proofs.SeamP Proofs.C07P Proofs.C07Q.
+From Rosed Require Import Base.Res Base.Str Gem.Segment Gem.GString Model.Manip Model.Table Model.Tb Proofs.SeamP Proofs.C13P Proofs.C07P Proofs.C07Q Proofs.C06R.
 Open Scope Z_scope.
 
 (* after CollapseSpace no two U+0020 are adjacent, for every text and separator *)
@@ -54,3 +54,17 @@ Print Assumptions C07_collapse_space_idempotent.
 Theorem C07_plain_text_safe : forall (C : Classifier) (K : ClassifierOk) rs, Forall plain rs -> safe_text rs.
 Proof. intros C K. exact plain_text_safe. Qed.
 Print Assumptions C07_plain_text_safe.
+
+(* Wrap: the pieces of the wrapped lines (each line is its pieces joined by single U+0020), read
+   in order, are exactly the words of the space-collapsed text - maximal runs of clusters that
+   are not a space - except that an over-long word appears as chunks o ++ "-" followed by its
+   remainder. With C07_collapse_clusters (the collapsed text has the input's non-whitespace
+   clusters) this is the property for Wrap on the text-level function. *)
+Theorem C07_wrap_words : forall (C : Classifier) (K : ClassifierOk) (U : Upper) text w sep ct b,
+  collapse_space text sep = Ok ct -> all_safe ct -> ct <> [] -> wrap text w sep = Ok b ->
+  exists pss, b_lines b = map ln pss /\ cov (concat pss) (wds (clusters ct) []).
+Proof.
+  intros C K U text w sep ct b Hc Hs Hne Hw.
+  destruct (wrap_structure text w sep ct b Hc Hs Hne Hw) as (pss & H1 & _ & _ & H4). exact (ex_intro _ pss (conj H1 H4)).
+Qed.
+Print Assumptions C07_wrap_words.
